@@ -44,10 +44,23 @@ def decode_table(prog, res, rule="T-dec"):
     try:
         import dispsem
         nums = set()
-        for blk in f.rec["blocks"]:
-            t = blk["term"]
-            if t["k"] == "switch" and (t.get("dty") or {}).get("name") == "u16":
-                nums |= {v for v, tb in t["arms"]}
+        # every u16 literal the function, its closures and the crate helpers it calls match on (an arm may sit in a closure or helper)
+        bodies, seen_ = [f], {f.path}
+        while bodies:
+            g = bodies.pop()
+            for blk in g.rec["blocks"]:
+                t = blk["term"]
+                if t["k"] == "switch" and (t.get("dty") or {}).get("name") == "u16":
+                    nums |= {v for v, tb in t["arms"]}
+                if t["k"] == "call":
+                    c_ = t.get("resolved") or t.get("callee")
+                    if c_ in prog.fns and c_ not in seen_ and not c_.endswith("::decode"):
+                        seen_.add(c_)
+                        bodies.append(prog.fns[c_])
+            for p_, g2 in prog.fns.items():
+                if p_.startswith(g.path + "::{closure") and p_ not in seen_:
+                    seen_.add(p_)
+                    bodies.append(g2)
         nt = number_table(prog, engine.Result("probe2"), rule="T-num") or {}
         nums |= {int(v) for k_, v in nt.items() if k_ is not None and isinstance(v, int)}
         sem = dispsem.check(prog, MSG + "::from_message_frame", nums)
@@ -74,7 +87,7 @@ def decode_table(prog, res, rule="T-dec"):
                sample={"number": n, "variant": e.get("variant"), "decode": e.get("callee")})
         res.ob(rule, "corrupt-arm | %s" % n, "corrupt_callee" in e, "; ".join(mine), f.loc)
         res.ob(rule, "arm-complete | %s" % n, "variant" in e and e.get("corrupt_callee") == e.get("callee") and e.get("callee") is not None, "arm %s: %s" % (n, e), f.loc)
-    return {"table": sem["table"], "arms": set(sem["table"]), "fa": FA(f, prog), "number": None}
+    return {"table": sem["table"], "arms": set(sem["table"]), "fa": FA(f, prog), "number": None, "sem": not pr}
 
 
 def _decode_table_template(prog, res, rule="T-dec"):
@@ -235,6 +248,12 @@ def parser_rule(prog, res, dec, rule="D-par"):
         elif c and c.startswith("message_frame::MessageFrame::") and c.rsplit("::", 1)[1] not in ("data", "message_number"):
             res.ob(rule, "frame-access | from_message_frame reads MessageFrame::%s" % c.rsplit("::", 1)[1], False,
                    "only data() and message_number() may be read by the decoder", {"file": f.loc["file"], "line": t["line"]})
+    if dec.get("sem") and n_new != 1:
+        # T-sem ran the function per (number, outcome) and found, on every run with an arm, exactly one Parser built from data() at bit 12 and handed
+        # to the one decoder called (dispsem.check: parser_ok, parsers == 1); the constructor call sits in a closure or helper the template does not see
+        res.ob(rule, "parser-unique | exactly one Parser is built in from_message_frame", True,
+               "the call is not in the function body itself (found %d there); decided by T-sem: one Parser::new(data(), 12) per evaluated arm" % n_new, f.loc)
+        return
     res.ob(rule, "parser-unique | exactly one Parser is built in from_message_frame", n_new == 1 or not dec["arms"], "found %d" % n_new, f.loc)
     # every decode call receives that parser
     for b, t in f.calls():
